@@ -249,7 +249,7 @@ class Array {
     }
 
     static Array FromJson(json j) {
-        std::array<T, N> data{0};
+        std::array<T, N> data{};
 
         for (std::size_t i=0; i<N && i<j.size(); i++) {
             data[i] = T::FromJson(j[i]);
@@ -259,7 +259,7 @@ class Array {
     }
 
     static Array Decode(Buffer& buffer, Endianess endianess = Endianess::Little) {
-        std::array<T, N> data{0};
+        std::array<T, N> data{};
 
         for (std::size_t i=0; i<N; i++) {
             data[i] = T::Decode(buffer, endianess);
